@@ -43,7 +43,7 @@ func c06Basic(c *core.Ctx) {
 	cons := fname(c06val, "BasicAuthValidator", "Validate") + "|user:password split at the first colon"
 	var matches []*ast.CallExpr
 	for _, call := range calls(f.Body, true) {
-		if ifaceMethodCall(f, call, c06val, "AuthorizedUsersCache", "Match") && len(call.Args) == 2 {
+		if c06IfaceMethod(f, call, c06val, "AuthorizedUsersCache", "Match") && len(call.Args) == 2 {
 			matches = append(matches, call)
 		}
 	}
@@ -163,8 +163,8 @@ func c06Basic(c *core.Ctx) {
 // c06IsDecode reports whether call yields the decoded credentials: a base64 decoder method
 // or net/http's own Basic parser. The data flow is not followed beyond it.
 func c06IsDecode(f *flow.Func, call *ast.CallExpr) bool {
-	fnObj, ok := f.Callee(call).(*types.Func)
-	if !ok || fnObj.Pkg() == nil {
+	fnObj, _ := c06Callee(f, call)
+	if fnObj == nil || fnObj.Pkg() == nil {
 		return false
 	}
 	if fnObj.Pkg().Path() == "encoding/base64" && strings.Contains(fnObj.Name(), "Decode") {
@@ -214,7 +214,11 @@ func c06BasicProvenance(c *core.Ctx, rule string, f *flow.Func, matches []*ast.C
 				if tv, ok := g.Info.Types[call.Fun]; ok && tv.IsType() {
 					return true // conversion
 				}
-				switch o := g.Callee(call).(type) {
+				var callee types.Object = g.Callee(call)
+				if fo, _ := c06Callee(g, call); fo != nil {
+					callee = fo
+				}
+				switch o := callee.(type) {
 				case *types.Builtin:
 					return true
 				case *types.Func:
@@ -250,6 +254,16 @@ func c06BasicProvenance(c *core.Ctx, rule string, f *flow.Func, matches []*ast.C
 										for _, r := range t.Results {
 											if tv, ok := h.Info.Types[r]; ok && tv.Type != nil && !isErrorTypeC06(tv.Type) && !tv.IsNil() {
 												rets = append(rets, r)
+											}
+										}
+										if len(t.Results) == 0 && h.Type != nil && h.Type.Results != nil {
+											// bare return: the named results carry the values
+											for _, fld := range h.Type.Results.List {
+												for _, nm := range fld.Names {
+													if o := h.Info.Defs[nm]; o != nil && !isErrorTypeC06(o.Type()) {
+														rets = append(rets, nm)
+													}
+												}
 											}
 										}
 									}
